@@ -836,8 +836,8 @@ func (o *Op) String() string {
 	return "del " + o.Table + " " + fmt.Sprint(o.Key)
 }
 
-// ErrC08 marks the documented-vs-implemented disagreement about deleting the target
-// of a "cascade update" foreign key (known finding of C08). Generators avoid it.
+// ErrC08 is no longer produced (the delete of the target of a "cascade update" foreign key
+// is refused since repository commit b1986f0, as documented); kept for IsAvoid.
 var ErrC08 = fmt.Errorf("delete of a row referenced through a cascade update foreign key")
 
 // ErrEmptyKeyCascade marks another case the generators avoid (it belongs to C08): changing an
@@ -976,11 +976,9 @@ func (m *Model) delete(t *Table, ri int, depth int) error {
 			if ref.Table == t.Name && slices.Contains(rows, ri) && ref.Mode != Block {
 				return ErrSelfRowCascade
 			}
-			switch ref.Mode {
-			case Block:
+			if ref.Mode&CascadeDelete == 0 {
+				// block and "cascade update" both refuse the delete (documented; C08 fix b1986f0)
 				return errf("delete blocked by foreign key")
-			case CascadeUpdate:
-				return ErrC08
 			}
 		}
 	}
